@@ -6,6 +6,9 @@ use std::collections::{BTreeMap, BTreeSet, HashSet};
 use super::tape::mix;
 
 pub const MAX_SAMPLES: usize = 9;
+/// hashed distinctness is measured up to this many digests per collector; beyond it non-trivial cases are
+/// no longer hashed (and conservatively not counted as distinct), only tallied in `nontrivial_beyond_cap`
+pub const HASH_CAP: usize = 24_000_000;
 pub const MAX_SAMPLES_PER_STAGE: usize = 3;
 
 #[derive(Default)]
@@ -16,6 +19,8 @@ pub struct Stats {
     pub nontrivial: HashSet<u64>,
     /// non-trivial cases that are distinct by construction (enumeration indices), counted instead of hashed
     pub nontrivial_counted: u64,
+    /// non-trivial cases seen after the hash set reached HASH_CAP (not part of distinct_nontrivial)
+    pub nontrivial_beyond_cap: u64,
     /// generator-distribution histogram
     pub classes: BTreeMap<&'static str, u64>,
     pub samples: Vec<Value>,
@@ -70,6 +75,10 @@ impl Stats {
     #[inline]
     pub fn nontrivial(&mut self, digest: u64) -> bool {
         if self.recording {
+            if self.nontrivial.len() >= HASH_CAP {
+                self.nontrivial_beyond_cap += 1;
+                return false;
+            }
             self.nontrivial.insert(digest)
         } else {
             false
@@ -139,7 +148,14 @@ impl Stats {
 
     pub fn merge(&mut self, other: Stats) {
         self.evaluations += other.evaluations;
-        self.nontrivial.extend(other.nontrivial);
+        self.nontrivial_beyond_cap += other.nontrivial_beyond_cap;
+        for d in other.nontrivial {
+            if self.nontrivial.len() >= 4 * HASH_CAP {
+                self.nontrivial_beyond_cap += 1;
+            } else {
+                self.nontrivial.insert(d);
+            }
+        }
         self.nontrivial_counted += other.nontrivial_counted;
         for (k, v) in other.classes {
             *self.classes.entry(k).or_insert(0) += v;
